@@ -419,9 +419,9 @@ def oracle(c, o):
                 f"{len(c['callers'])} were rejected (a rejected request must leave no trace)")
     if o.get('loop_errors'):
         return f"{tag}: {len(o['loop_errors'])} error(s) reached the event loop's exception handler, e.g. {o['loop_errors'][0]}"
-    # (a result that cannot even be loaded in the server - failure code 6 - is skipped by the gather thread together with its
-    # request id: that request's slot is not returned; such exceptions are outside what the properties quantify over, what is
-    # checked is that the other requests are unaffected)
+    # A result that cannot even be loaded in the server (failure code 6) is skipped by the gather thread together with its
+    # request id, and that request's slot is never given back: a violation of C06 ("every accepted request gives its slot
+    # back"), reported separately by `ul_leak` below (known finding C06-UL); a backlog beyond those slots is reported here.
     unloadable = sum(1 for s in c['callers'] if s['fail'] == 6)
     if o['idle_backlog'] > unloadable:
         return f"{tag}: backlog still {o['idle_backlog']} 10 s after every caller had returned (slots not given back)"
@@ -429,6 +429,17 @@ def oracle(c, o):
         return f"{tag}: after the mixed phase the server answered {o['epilogue']} to three plain calls"
     if o['exit_s'] > 30:
         return f"{tag}: leaving the server context took {o['exit_s']} s"
+    return None
+
+
+UL_KEY = 'C06-UL-unloadable-result-slot-never-returned'
+
+
+def ul_leak(c, o):
+    """the slots an idle server still holds for requests whose result could not be loaded (None if none)"""
+    if 'idle_backlog' in o and o['idle_backlog'] > 0 and any(s['fail'] == 6 for s in c['callers']):
+        return (f"{c['kind']}: idle server still has backlog {o['idle_backlog']}: the slot of a request whose result could not be "
+                f"loaded from the output queue (a worker exception that pickle cannot re-create) is never given back")
     return None
 
 
@@ -441,10 +452,19 @@ def coq_case(r):
     return f"({cnat(c['capacity'])}, {clist(o['log'], cnat)}, {cnat(o['peak'])}, {idle}, {clist(o.get('glog') or [], cnat)})"
 
 
-def part(n_quick, n_thorough):
+def part(n_quick, n_thorough, report_slot_leak=False):
+    """report_slot_leak: also report (under the key of known finding C06-UL) the slot an unloadable result leaves behind -
+    set by the C06 check, whose property it violates; the other users of this part judge their own properties only."""
     from harness import core
+
+    def orc(r):
+        if r['oracle']:
+            return (r['oracle'], None)
+        if report_slot_leak and r.get('ul_leak'):
+            return (r['ul_leak'], UL_KEY)
+        return None
     return core.Part('real', 'harness.scen_backlog', 'gen', n_quick, n_thorough, 'DriverBacklog', coq_case,
-                     lambda r: (r['oracle'], None) if r['oracle'] else None,
+                     orc,
                      lambda r: r['obs'].get('peak', 0) >= r['cfg']['capacity'] and any(x and x[0] == 'rejected' for x in r['obs'].get('outs', [])),
                      key=lambda r: json.dumps(r['cfg'], sort_keys=True),
                      describe=lambda r: {'cfg': r['cfg'], 'obs': {k: v for k, v in r['obs'].items() if k not in ('log', 'glog')},
@@ -474,7 +494,7 @@ def main(argv):
             o = run_case(c)
         except BaseException as e:  # noqa
             o = {'crash': repr(e)[:300]}
-        results.append({'cfg': c, 'obs': o, 'oracle': oracle(c, o), 'strategy': c['kind'], 'verdict': 'ok'})
+        results.append({'cfg': c, 'obs': o, 'oracle': oracle(c, o), 'ul_leak': ul_leak(c, o), 'strategy': c['kind'], 'verdict': 'ok'})
         if i % 10 == 9:
             gc.collect()
     json.dump(results, open(outp, 'w'))
